@@ -155,8 +155,8 @@ impl Sim {
 }
 
 /// Harness stop: the scenario has nothing left to deliver and the client would now wait forever.
-fn harness_stop(sim: &mut Sim) -> ! {
-    sim.log("STOP");
+fn harness_stop(sim: &mut Sim, why: &str) -> ! {
+    sim.log(&format!("STOP {why} events_pending={}", sim.sc.events.len() - sim.next_event.min(sim.sc.events.len())));
     sim.flush_log();
     // flush std's stdout buffer the normal way
     std::process::exit(0)
@@ -182,7 +182,7 @@ pub mod net {
             if i >= sim.sc.connects.len() {
                 if sim.next_event >= sim.sc.events.len() {
                     // nothing will ever happen again
-                    harness_stop(sim);
+                    harness_stop(sim, "connect-with-nothing-left");
                 }
                 sim.log("CONNECT exhausted-refuse");
                 let t = sim.now_us + 1_000;
@@ -312,7 +312,7 @@ pub mod net {
                             if sim.sessions[sid].eof_returns > 3 && sim.feed_exhausted() {
                                 // a client that keeps reading a closed socket forever (1090 does by
                                 // design): stop the run here
-                                harness_stop(sim);
+                                harness_stop(sim, "eof-loop");
                             }
                             sim.log("RD eof");
                             return Ok(0);
@@ -335,7 +335,7 @@ pub mod net {
                                 // keeps waiting (1090 does by design) is stopped here
                                 sim.sessions[sid].idle_timeouts += 1;
                                 if sim.sessions[sid].idle_timeouts > 25 {
-                                    harness_stop(sim);
+                                    harness_stop(sim, "idle-timeouts");
                                 }
                             }
                             sim.log("RD wouldblock");
@@ -344,7 +344,7 @@ pub mod net {
                         }
                         (None, None) => {
                             // blocking read on a connection that will never deliver or close
-                            harness_stop(sim);
+                            harness_stop(sim, "blocked-read");
                         }
                     }
                 }
@@ -509,7 +509,7 @@ pub mod event {
             sim.step();
             let Some(e) = sim.sc.events.get(sim.next_event).cloned() else {
                 // a blocking read with nothing scripted would wait forever
-                super::harness_stop(sim);
+                super::harness_stop(sim, "blocked-event-read");
             };
             sim.next_event += 1;
             sim.advance_to(e.at_us);
